@@ -55,7 +55,7 @@ pub fn table() -> Vec<(&'static str, extern "C" fn(*const u8, usize) -> u32)> {
          chk_capacity_7, chk_capacity_8, chk_capacity_default, chk_resync, chk_cut, chk_concat, chk_total, chk_arraybuf_big);
     reg!(chk_parse_c04, chk_parse_c09, chk_parse_c13, chk_parse_c06, chk_parse_c03, chk_parse_c03w, chk_parse_c12, chk_parse_all, chk_stream_noalloc,
          chk_fix_c04, chk_fix_c09, chk_fix_c13, chk_fix_c06, chk_fix_c03,
-         chk_mut_c04, chk_mut_c09, chk_mut_c13, chk_mut_c06, chk_mut_c03, chk_gen_c03);
+         chk_mut_c04, chk_mut_c09, chk_mut_c13, chk_mut_c06, chk_mut_c03, chk_mut_c12, chk_gen_c03);
     reg!(chk_faults, chk_e2e, chk_e2e_nb);
     v
 }
